@@ -14,16 +14,26 @@ THEOREMS = [
     "Rtosc.Osc.amessage_fit_exact",
     "Rtosc.Osc.amessage_null_size",
     "Rtosc.Osc.amessage_null_any_len",
+    "Rtosc.Osc.sent_same_size",
+    "Rtosc.Osc.sent_eq_self",
     "Rtosc.Osc.vmessage_fixed_buffer",
+    "Rtosc.Osc.vmessage_fixed_buffer_bytes",
     "Rtosc.Osc.message_fixed_buffer",
+    "Rtosc.Osc.message_fixed_buffer_bytes",
     "Rtosc.Osc.bundle_never_oob",
     "Rtosc.Osc.bundle_fail_closed",
     "Rtosc.Osc.bundle_exact_size",
     "Rtosc.Osc.bundle_fixed_buffer",
     "Rtosc.Osc.appendBundle_never_oob",
+    "Rtosc.Osc.appendBundle_fail_closed",
+    "Rtosc.Osc.appendBundle_fit_exact",
+    "Rtosc.Osc.appendBundle_chain_after_failure",
+    "Rtosc.Osc.appendBundle_chain_never_oob",
     "Rtosc.Osc.tlink_writeArray_fixed_buffer",
     "Rtosc.Osc.tlink_write_fixed_buffer",
+    "Rtosc.Osc.tlink_write_fixed_buffer_bytes",
     "Rtosc.Osc.rtdata_reply_fixed_buffer",
+    "Rtosc.Osc.rtdata_reply_fixed_buffer_bytes",
     "Rtosc.Osc.wrapper_overclaim_detected",
     "Rtosc.Osc.amessage_eq_amessageFast",
     "Rtosc.Osc.BW.stores_eq_storesFast",
@@ -44,9 +54,14 @@ ASSUMPTIONS = ["message arguments as in C01 (address non-empty and NUL-free, str
                "not larger than the data block, NULL blob data allowed)",
                "bundle elements as in C08 (well-formed; a nested bundle is followed by a zero word inside its block)",
                "variadic entry points (rtosc_message, rtosc_vmessage, ThreadLink::write, RtData::reply/broadcast): the "
-               "theorems assume hf: every 32-bit argument v satisfies narrow(widen v) = v (a float survives the promotion "
-               "to double and back, true of IEEE-754 for every non-signalling pattern; the size of the message never "
-               "depends on it, but the theorems state the exact bytes); the correspondence runs signalling NaNs too",
+               "theorems about stores, return values, fail-closed and exact size have NO hypothesis on the float "
+               "conversions (narrow : double -> float and widen : float -> double are arbitrary functions on bit "
+               "patterns); they say that the bytes written are the encoding of the message sent = the caller's message "
+               "with each value under an 'f' tag replaced by narrow(widen v), whose size is that of the caller's message "
+               "(sent_same_size). Only the ..._bytes corollaries (the bytes are the encoding of the caller's message "
+               "itself) assume that every value under an 'f' tag satisfies narrow(widen v) = v (C01's f-only hypothesis "
+               "fArgs: true of IEEE-754 for every non-signalling pattern; int/char/colour arguments are not constrained); "
+               "the correspondence runs signalling NaNs too",
                "the wrappers' theorems have the hypothesis that the capacity passed is not larger than the buffer owned "
                "(MaxMsg <= size of write_buffer; cap <= size of the stack buffer): wrapper_overclaim_detected shows that the "
                "model flags a wrapper that claims more; the va_list hand-off itself is not modelled (the list of promoted "
@@ -60,14 +75,33 @@ LEVEL_TEXT = ("Lean theorems, for every capacity and every well-formed input: th
               "if the encoding does not fit they return 0 and leave len zero bytes; otherwise they return exactly the "
               "encoded size and write exactly the encoding; the NULL-buffer size equals that size, whatever len is passed "
               "with NULL; for rtosc_bundle the store-safety and fail-closed theorems hold for arbitrary element bytes. "
-              "For append_bundle only store-safety is a theorem here (on failure it returns 0 and leaves the destination "
-              "as it was: it does not zero-fill; its result is C08's appendBundle_eq_spec). rtosc_message and the wrappers "
+              "For append_bundle (arbitrary blocks and lengths, max_len <= block size): never a store outside; it fails "
+              "exactly when its guard max_len < dst_len+src_len+4 || dst_len == 0 || src_len == 0 fires, then it returns 0 "
+              "and the destination holds exactly the bytes it held before (it does not zero-fill: the bundle built so "
+              "far stays intact; this is what the code documents, and differs from the zero-fill of the constructors); "
+              "otherwise it returns exactly dst_len+4+src_len and splices size field and element in at dst_len, every "
+              "other byte untouched; in the chain len = append_bundle(buffer, src_i, buffer_size, len, n_i) of "
+              "subtree_serialize, once one append fails it and every later append return 0 and the destination keeps the "
+              "bytes it had before the failing call, and the whole chain never stores outside the block (on well-formed "
+              "contents the result is C08's appendBundle_eq_spec). rtosc_message and the wrappers "
               "writing into write_buffer[MaxMsg] and the stack buffer of RtData::reply/broadcast are stated for a caller "
               "that owns a block and claims a capacity (callAt): under the hypothesis capacity <= block size nothing is "
-              "stored outside and the bytes behind the capacity keep their values. The variadic theorems carry the "
-              "hypothesis hf (see assumptions). The models are compared with the compiled implementation on every capacity "
+              "stored outside and the bytes behind the capacity keep their values. The variadic theorems (rtosc_vmessage, "
+              "rtosc_message, ThreadLink::write, RtData::reply/broadcast) hold for arbitrary float<->double conversions: "
+              "no store outside, 0 and zero bytes if too small, otherwise exactly the encoded size of the caller's message "
+              "and the encoding of the message sent (the 'f' values converted to double and back; same size); that these "
+              "bytes are the encoding of the caller's message itself is proved under the hypothesis that the values under "
+              "an 'f' tag, and only those, survive float -> double -> float. The models are compared with the compiled implementation on every capacity "
               "of exact-size heap blocks (ASan red zones + canaries), and the property is evaluated directly on the "
               "implementation's output")
+LEVEL_NOTE = ("Trusted: Lean kernel; the hand-written model is tied to the code by differential execution only; see "
+              "evidence trusted_base. No float hypothesis is left in the discipline theorems of the variadic entry points "
+              "(only the ..._bytes corollaries assume that the values under an 'f' tag survive float -> double -> float). "
+              "Open: the exact-size theorem of rtosc_bundle needs well-formed elements whose nested bundles are followed by "
+              "a zero word (C08-K4), its store-safety and fail-closed theorems do not; messages and bundles of 2^32 bytes "
+              "or more are outside the theorems (unsigned pos wraps); the va_list hand-off is not modelled (the list of "
+              "promoted values is); for append_bundle the chain theorem is about the sequence of calls subtree_serialize "
+              "makes (len fed back), not about subtree_serialize's port walk and message capture, which are not modelled")
 
 hx = C01.hx
 unhx = C01.unhx
